@@ -57,14 +57,16 @@ ALL_METRICS = ["ENERGY", "LATENCY", "ENERGY|LATENCY", "ENERGY|LATENCY|RESOURCE_U
 
 
 @st.composite
-def temporal_cases(draw):
+def temporal_cases(draw, salt=0):
     d = draw(G.specs(shapes=("chain2", "chain2", "elementwise2", "matmul", "matvec", "elementwise", "chain3", "diamond"),
                      levels=(2, 2, 3), metrics=ALL_METRICS, bound_pool=[1, 2, 2, 3, 4, 6, 8], allow_leak=True, max_ops=300))
     if len(d["einsums"]) >= 3 or (len(d["einsums"]) == 2 and len(d["nodes"]) > 3):
         d["bounds"] = {k: min(v, 3) for k, v in d["bounds"].items()}
         _clamp_sizes(d)
-    d["mapper"]["max_fused_loops"] = draw(st.sampled_from([1, 0, 2, "inf", "inf"]))
-    d["mapper"]["max_fused_loops_per_rank_variable"] = draw(st.sampled_from([1, 2, 1]))
+    # pools are rotated by a per-shard salt: with 2 examples per shard Hypothesis' preference for the first element of
+    # sampled_from (its "simplest" example) would otherwise starve the other values
+    d["mapper"]["max_fused_loops"] = draw(st.sampled_from(rot([1, 0, 2, "inf", "inf"], salt)))
+    d["mapper"]["max_fused_loops_per_rank_variable"] = draw(st.sampled_from(rot([1, 2, 1], salt // 5)))
     return {"spec": d, "family": "temporal"}
 
 
@@ -76,13 +78,18 @@ def _clamp_sizes(d):
             n["size"] = min(n["size"], tot * bits + bits / 2)
 
 
+def rot(lst, k):
+    k %= len(lst)
+    return list(lst[k:]) + list(lst[:k])
+
+
 OPS = ["product==", "<", "==", "product<=", ">=", "<=", "==1", "<="]
 
 
 @st.composite
-def loop_bound(draw, rvs, fanout):
-    op = draw(st.sampled_from(OPS))
-    rv = draw(st.sampled_from(rvs))
+def loop_bound(draw, rvs, fanout, salt=0):
+    op = draw(st.sampled_from(rot(OPS, salt)))
+    rv = draw(st.sampled_from(rot(rvs, salt // 8)))
     if op == "==1":
         return {"expression": "~" + rv, "operator": "==", "value": 1}
     if op.startswith("product"):
@@ -99,11 +106,11 @@ def loop_bound(draw, rvs, fanout):
 
 
 @st.composite
-def spatial_cases(draw):
+def spatial_cases(draw, salt=0):
     """variant A: one Einsum on Main + fanout (Container, or declared on the Reg memory) + Reg + MAC, 1-2 dims;
     variant B: two Einsums (fusable) on Main + GLB + Container fanout + MAC, 1 dim (a Reg level below a fanout with
     two Einsums costs minutes per mapper run)."""
-    two = draw(st.integers(0, 2)) == 0
+    two = draw(st.sampled_from(rot([True, False, False], salt)))
     if two:
         wl = draw(G.workloads(shapes=("chain2", "chain2", "elementwise2"), bound_pool=[1, 2, 2, 3, 3, 4], max_ops=64))
         wl["bounds"] = {k: min(v, 4) for k, v in wl["bounds"].items()}
@@ -129,8 +136,8 @@ def spatial_cases(draw):
         dim = {"name": name, "fanout": fanout}
         nlb = draw(st.sampled_from([1, 1, 0, 1, 2]))
         if nlb:
-            dim["loop_bounds"] = [draw(loop_bound(rvs, fanout)) for _ in range(nlb)]
-        mu = draw(st.sampled_from([0, 0.5, 0, 1]))
+            dim["loop_bounds"] = [draw(loop_bound(rvs, fanout, salt + 3 * j)) for j in range(nlb)]
+        mu = draw(st.sampled_from(rot([0, 0.5, 0, 1], salt)))
         if mu:
             dim["min_usage"] = mu
         dims.append(dim)
@@ -153,7 +160,7 @@ def spatial_cases(draw):
     d["nodes"] = nodes
     d["mapper"] = {"metrics": draw(st.sampled_from(["ENERGY|LATENCY", "ENERGY", "LATENCY", "ENERGY|LATENCY|RESOURCE_USAGE"]))}
     if two:
-        d["mapper"]["max_fused_loops"] = draw(st.sampled_from([1, 2, "inf"]))
+        d["mapper"]["max_fused_loops"] = draw(st.sampled_from(rot([1, 2, "inf"], salt)))
     return {"spec": d, "family": "spatial"}
 
 
@@ -480,8 +487,12 @@ def check(desc, col):
     if len(sp["einsums"]) > 1:
         base.append(f"max_fused_loops:{mp.get('max_fused_loops', 'inf')}")
         base.append(f"per_rank_limit:{mp.get('max_fused_loops_per_rank_variable', 1)}")
+    # half of the cases take the joiner's result as is (eval_in_detail=False: nothing but this predicate stands between a
+    # wrongly admitted mapping and the user), the other half the default path (the model re-evaluates every mapping)
+    detail = int(fp(sp), 16) % 2 == 0
+    base.append("eval_in_detail:on" if detail else "eval_in_detail:off")
     try:
-        m = G.run_mapper2(G.build_spec(sp))
+        m = G.run_mapper2(G.build_spec(sp), eval_in_detail=detail)
     except G.Infeasible:
         col.case(desc, False, base + ["mapper:infeasible"])
         return
@@ -519,7 +530,7 @@ def check(desc, col):
         cls = pool[(int(fp(desc), 16) // 12) % len(pool)]
         labels.append(f"relaxed_run:{cls}")
         try:
-            m2 = G.run_mapper2(G.build_spec(relax(sp, cls)))
+            m2 = G.run_mapper2(G.build_spec(relax(sp, cls)), eval_in_detail=detail)
             a, b = first_objective(m, metrics), first_objective(m2, metrics)
             if a is not None and b is not None:
                 if b < a and not close(a, b, rel=1e-6):
@@ -567,8 +578,9 @@ def shards(tier, seed):
 
 def run_shard(shard, col):
     shrink = os.environ.get("VF_NO_SHRINK") != "1"   # VF_NO_SHRINK=1: mutation experiments only (each shrink step is a mapper run)
-    drive(temporal_cases(), check, n=shard["n_temporal"], seed=hash32(shard["seed"], "C03t", shard["k"]), col=col, shrink=shrink)
-    drive(spatial_cases(), check, n=shard["n_spatial"], seed=hash32(shard["seed"], "C03s", shard["k"]), col=col, shrink=shrink)
+    salt = shard["k"] + hash32(shard["seed"], "C03salt") % 97
+    drive(temporal_cases(salt), check, n=shard["n_temporal"], seed=hash32(shard["seed"], "C03t", shard["k"]), col=col, shrink=shrink)
+    drive(spatial_cases(salt), check, n=shard["n_spatial"], seed=hash32(shard["seed"], "C03s", shard["k"]), col=col, shrink=shrink)
 
 
 def replay(desc, col):
